@@ -34,7 +34,7 @@ VARIABLES
   len,    \* sender: blocks in the window = the contiguous slice base+1 .. base+len
           \* receiver: blocks accepted but not yet written (= CSLen(buf))
   eof,    \* sender: the final (first short) block has been read into the window (= ~filled)
-  retry,  \* consecutive failed receives (retry_cnt)
+  retry,  \* consecutive failed receives (retry_cnt): reset by every ACK in the window (sender), every DATA (receiver)
   el,     \* sender: ticks since the window was last transmitted, saturating at p.T
   out,    \* outputs committed but not yet handed to the socket (None or one descriptor)
   buf,    \* receiver: payload ids accepted, not yet written (compact id sequence)
@@ -217,13 +217,15 @@ RecvDataInSeq(n, id, sz) ==
   /\ IF final \/ len + 1 = p.W
      THEN IF WriteFails(nbuf)
           THEN /\ pc' = "failed" /\ buf' = nbuf /\ len' = len + 1
-               /\ UNCHANGED <<file, out, retry>>
+               /\ retry' = 0
+               /\ UNCHANGED <<file, out>>
           ELSE /\ file' = CSConcat(file, nbuf) /\ buf' = CSEmpty /\ len' = 0
                /\ out' = AckOut(Wire(base + 1))
                /\ retry' = 0
                /\ pc' = IF final THEN "done" ELSE pc
      ELSE /\ buf' = nbuf /\ len' = len + 1
-          /\ UNCHANGED <<file, out, retry, pc>>
+          /\ retry' = 0                 \* C04: the budget is for CONSECUTIVE failed receives
+          /\ UNCHANGED <<file, out, pc>>
   /\ UNCHANGED <<p, eof, el, fexists, ok, hi>>
 
 \* DATA with any other number (duplicate, retransmission after a lost ACK, or a gap):
@@ -236,7 +238,8 @@ RecvDataOutOfSeq(n) ==
      ELSE /\ file' = CSConcat(file, buf) /\ buf' = CSEmpty /\ len' = 0
           /\ out' = AckOut(Wire(base))
           /\ pc' = pc
-  /\ UNCHANGED <<p, base, eof, retry, el, fexists, ok, hi, ne>>
+  /\ retry' = 0                        \* a DATA packet arrived: the peer is not silent
+  /\ UNCHANGED <<p, base, eof, el, fexists, ok, hi, ne>>
 
 RecvRecvFail ==     \* timeout, undecodable datagram, or a packet kind the receiver does not expect
   /\ Receiving /\ pc = "run" /\ AtRecv
